@@ -248,3 +248,21 @@ fn get_metrics(status: Option<TransformStatus>, file: &str) -> Option<Metrics> {
     }
     None
 }
+
+#[cfg(datadog_dd_native_iast_rewriter_js_verif)]
+pub mod verif_hooks {
+    //! verification-only accessors to the private option defaulting and metrics shaping
+    use super::{Config, Metrics, RewriterConfig, TransformStatus};
+
+    pub fn to_config(rewriter_config: &RewriterConfig) -> Config {
+        rewriter_config.to_config()
+    }
+
+    pub fn default_config() -> Config {
+        RewriterConfig::default().to_config()
+    }
+
+    pub fn get_metrics(status: Option<TransformStatus>, file: &str) -> Option<Metrics> {
+        super::get_metrics(status, file)
+    }
+}
